@@ -104,7 +104,8 @@ def run(repo, chk):
     for m, d in (("activate", "__enter__"), ("deactivate", "__exit__")):
         fi = repo.func(f"probe.Probe.{m}")
         calls = [c for c in ast.walk(fi.node) if isinstance(c, ast.Call) and norm(c.func) == f"self.{d}"]
-        chk.ob("R17.1", f"probe.Probe.{m}:delegates", len(calls) == 1 and len(fi.node.body) <= 2, fi.where,
+        unguarded = bool(calls) and not any(isinstance(a_, (ast.If, ast.Try, ast.While, ast.For)) for a_ in _anc(calls[0], fi.node))
+        chk.ob("R17.1", f"probe.Probe.{m}:delegates", len(calls) == 1 and len(fi.node.body) <= 2 and unguarded, fi.where,
                f"{m}() is exactly self.{d}(...) (one lifecycle for with-blocks and global probes)")
 
     # R17.2
@@ -173,3 +174,10 @@ def run(repo, chk):
         and any(isinstance(c, ast.Call) and isinstance(c.func, ast.Attribute) and c.func.attr == "deactivate" for c in ast.walk(loops[0]))
     chk.ob("R17.4", "probe._terminate_global_probes:iterates-copy", ok, tg.where,
            "deactivates every remaining global probe, iterating over a copy (deactivate mutates the set)")
+
+
+def _anc(n, fn):
+    cur = getattr(n, "_parent", None)
+    while cur is not None and cur is not fn:
+        yield cur
+        cur = getattr(cur, "_parent", None)
